@@ -49,4 +49,7 @@ MUTANTS = [
     m("c01-twin-slice-weight-int", None, '        return (aux_vars["log_u"] <= -h) * 1', '        return int(aux_vars["log_u"] <= -h)', twin=True),
     m("c01-random-length-depends-on-dir", "R1b", "        n_step = rng.integers(*self.n_step_range)\n", "        n_step = rng.integers(*self.n_step_range) + (state.dir > 0)\n"),
     m("c01-twin-random-length-unpacked", None, "        n_step = rng.integers(*self.n_step_range)\n", "        lower, upper = self.n_step_range\n        n_step = rng.integers(lower, upper)\n", twin=True),
+    m("c01-break-on-none-tree", "R12", "            if terminate:\n                break\n            # progressively sample new state", "            if new_tree is None:\n                break\n            # progressively sample new state", key="subtree-used-without-flag-test"),
+    m("c01-inner-terminate-ignored", "R12", "        if terminate:\n            return terminate, None, None\n        # build 'outer' subtree", "        if inner_tree is None:\n            return terminate, None, None\n        # build 'outer' subtree", key="subtree-used-without-flag-test"),
+    m("c01-twin-terminate-else", None, "            if terminate:\n                break\n            # progressively sample new state", "            if terminate is True:\n                break\n            # progressively sample new state", twin=True),
 ]
